@@ -20,6 +20,7 @@ from scenarios.common import v
 class DistFamily(common.Family):
   prop = 'C16'
   name = 'dist'
+  max_steps = 2_000_000
 
   def gen(self, rng, tier):
     mode = rng.choice(['sharded', 'sharded', 'interleaved', 'strict'])
